@@ -32,7 +32,7 @@ UNARY = ["tanh", "sigmoid", "neg", "mulc", "sq", "clone", "exp_b", "log1p_sq", "
 BINARY = ["add", "mul", "sub", "div1"]
 SHAPE = ["reshape_flat", "transpose", "movedim", "unsqueeze", "squeeze", "flatten"]
 OTHER = ["sum", "mean", "matmul", "concat", "stack", "unbind", "getitem", "log_softmax", "softmax", "linear", "mse_loss",
-         "batch_norm", "bce_logits", "addmm"]
+         "batch_norm", "bce_logits", "addmm", "bn_shared"]
 ALL_OPS = UNARY + BINARY * 3 + SHAPE + OTHER * 2
 
 
@@ -106,9 +106,24 @@ def apply_op(op, xs, prm):
     if op == "matmul":
         return a @ xs[1]
     if op == "concat":
-        return sg.concat([a, xs[1]], prm["dim"])
+        lst = [a, xs[1]]
+        out = sg.concat(lst, prm["dim"])
+        lst.clear()                      # the caller re-uses its list; the recorded op must not follow it
+        return out
     if op == "stack":
-        return sg.stack([a, xs[1]], prm["dim"])
+        lst = [a, xs[1]]
+        out = sg.stack(lst, prm["dim"])
+        lst[:] = lst[::-1] + [a]
+        return out
+    if op == "bn_shared":
+        # an eval-mode normalisation whose running-statistic tensors are updated by a later training-mode call
+        C = a.shape[1]
+        rm = Tensor(np.linspace(-0.5, 0.5, C))
+        rv = Tensor(np.linspace(0.5, 1.5, C))
+        out = sg.batch_norm(a, None, None, rm, rv, False)
+        other = Tensor((np.arange(a.data.size, dtype=np.float64).reshape(a.shape) * 7 % 11) / 3.0)
+        sg.batch_norm(other, None, None, rm, rv, True, 0.5)
+        return out
     if op == "unbind":
         return sg.unbind(a, prm["dim"])
     if op == "getitem":
@@ -211,6 +226,9 @@ def resolve(case):
                     ok = False
             elif op == "mse_loss":
                 inputs = [ia, ib] if tuple(a.shape) == tuple(b.shape) else [ia, ia]
+            elif op == "bn_shared":
+                if nd < 2 or a.data.size // a.shape[1] < 2:
+                    ok = False
             elif op == "batch_norm":
                 # training-mode normalisation over all dims but 1: needs >= 2 values per channel, pairwise distinct data
                 if nd < 2 or a.data.size // a.shape[1] < 2 or np.unique(a.data).size < a.data.size:
